@@ -17,6 +17,30 @@ def _norm(st):
     return head + " C " + " ".join(cons)
 
 
+def _avc_set(c):
+    """a native connectivity node with its edge operands as a sorted list: the loop helpers take the edges from
+    Graph.line_graph(), which iterates a Python set (the order is not part of the model, Graph/LineGraph.v lists the
+    pairs sorted; the node's meaning - connectivity - does not depend on the order of its edge operands)"""
+    t = c.split()
+    if t[:3] == ["(", "B", "GRAPH_ACTIVE_VERTICES_CONNECTED"] and t[-1] == ")" and len(t) > 5 and t[3][0] == "#" and t[4][0] == "#":
+        try:
+            m = int(t[4][1:])
+        except ValueError:
+            return c
+        ops = t[5:-1]
+        tail = ops[len(ops) - 2 * m:] if m else []
+        if m and len(tail) == 2 * m and all(x[0] == "#" for x in tail):
+            pairs = sorted((int(tail[2 * i][1:]), int(tail[2 * i + 1][1:])) for i in range(m))
+            return " ".join(t[:len(t) - 1 - 2 * m] + ["#%d" % x for pr in pairs for x in pr] + [")"])
+    return c
+
+
+def _norm_native(st):
+    import graphcap
+    head, cons = graphcap.norm_state(st)
+    return head + " C " + " ".join(sorted(_avc_set(c) for c in cons))
+
+
 class _Rec:
     """stands in for ctx inside a worker process: records the calls, the parent replays them in plug-in order"""
     def __init__(self):
@@ -67,7 +91,7 @@ def _tie_plugin(args):
                 from cspuz import config
                 rep = m.call("MP %s %s" % (p.NAME, tok))
                 if rep.startswith("OK "):
-                    mo = ("ok", _norm(rep[3:]))
+                    mo = ("ok", _norm_native(rep[3:]))
                 elif rep.startswith("E "):
                     mo = ("err", ERR[int(rep.split()[1])])
                 else:
@@ -83,7 +107,7 @@ def _tie_plugin(args):
                 elif len(insts) != 1:
                     io = ("harness", "%d solvers" % len(insts))
                 else:
-                    io = ("ok", _norm(exprio.show_state(insts[0])))
+                    io = ("ok", _norm_native(exprio.show_state(insts[0])))
                 rec.corr("program-native:" + p.NAME, tok, mo, io)
     except Exception:  # noqa
         import traceback
